@@ -176,5 +176,11 @@ Join(ts, style, i) ==
   IF ts = << >> THEN ""
   ELSE IF Len(ts) = 1 THEN ts[1] \o (IF style = 2 THEN " " ELSE IF style = 3 THEN "\r\n" ELSE "")
   ELSE ts[1] \o (IF style = 0 THEN (IF NeedsSep(ts[1], ts[2]) THEN " " ELSE "") ELSE Ws(style, i)) \o Join(Tail(ts), style, i + 1)
+\* whitespace w at exactly one token boundary k (all other boundaries minimal)
+RECURSIVE JoinAt(_, _, _, _)
+JoinAt(ts, k, w, i) ==
+  IF ts = << >> THEN "" ELSE IF Len(ts) = 1 THEN ts[1]
+  ELSE ts[1] \o (IF i = k THEN w ELSE IF NeedsSep(ts[1], ts[2]) THEN " " ELSE "") \o JoinAt(Tail(ts), k, w, i + 1)
+RenderAt(e, k, w) == JoinAt(Toks(e, "min"), k, w, 1)
 Render(e, mode, style) == (IF style = 2 THEN " " ELSE IF style = 3 THEN "\n\t" ELSE "") \o Join(Toks(e, mode), style, 0)
 =============================================================================
